@@ -78,6 +78,37 @@ theorem Line3_eval (l : Line3 α) (t : α) : Gen.Line3.eval l t = lineAt l t := 
     | rfl
     | (simp only [Gen.Line3.eval, lineAt, V3.mk.injEq]; refine ⟨?_, ?_, ?_⟩ <;> ring)
 
+/-- `operator* (Line3, Matrix44)` (ImathLine.h): the line through the images of `pos` and `pos + dir`, for EVERY matrix -/
+theorem Line3_mulM44_def (tmin tmax : α) (sqrt : α → α) (l : Line3 α) (m : M44 α) :
+    Gen.Line3.mulM44 tmin tmax sqrt l m = Gen.Line3.set tmin tmax sqrt (mulM44 l.pos m) (mulM44 (add l.pos l.dir) m) := by
+  first
+    | rfl
+    | (simp only [Gen.Line3.mulM44, Gen.Line3.set, mulM44, add]
+       first | rfl | (split_ifs <;> (simp only [Line3.mk.injEq, V3.mk.injEq]; refine ⟨⟨?_, ?_, ?_⟩, ?_, ?_, ?_⟩ <;> ring_nf)))
+
+/-- for an affine matrix that does not collapse the direction: `pos` is mapped to the image of `pos`, the direction is a unit
+vector, and the image of EVERY point of the line lies on `line * M` (at the parameter `t·k`, `k > 0` the stretch of the direction) -/
+theorem Line3_mulM44 (tmin tmax : α) (sqrt : α → α) (hlen : LenSpec (Gen.V3.length tmin tmax sqrt)) (l : Line3 α) (m : M44 α)
+    (haff : Affine m) (hne : mulM44 l.pos m ≠ mulM44 (add l.pos l.dir) m) :
+    (Gen.Line3.mulM44 tmin tmax sqrt l m).pos = mulM44 l.pos m ∧
+    dot (Gen.Line3.mulM44 tmin tmax sqrt l m).dir (Gen.Line3.mulM44 tmin tmax sqrt l m).dir = 1 ∧
+    ∃ k, 0 < k ∧ ∀ t, mulM44 (lineAt l t) m = lineAt (Gen.Line3.mulM44 tmin tmax sqrt l m) (t * k) := by
+  rw [Line3_mulM44_def]
+  obtain ⟨hpos, hunit, k, hk, _, hdir⟩ := Line3_set tmin tmax sqrt hlen _ _ hne
+  refine ⟨hpos, hunit, k, hk, fun t => ?_⟩
+  obtain ⟨h03, h13, h23, h33⟩ := haff
+  generalize Gen.Line3.set tmin tmax sqrt (mulM44 l.pos m) (mulM44 (add l.pos l.dir) m) = r at *
+  cases r with | mk rp rd =>
+  simp only at hpos
+  subst hpos
+  simp only [sub, smul, mulM44, add, V3.mk.injEq, h03, h13, h23, h33, mul_zero, add_zero, zero_add, div_one] at hdir
+  obtain ⟨h1, h2, h3⟩ := hdir
+  simp only [lineAt, mulM44, h03, h13, h23, h33, mul_zero, add_zero, zero_add, div_one, V3.mk.injEq]
+  refine ⟨?_, ?_, ?_⟩
+  · linear_combination t * h1
+  · linear_combination t * h2
+  · linear_combination t * h3
+
 /-- what `closestPointTo(point)` computes for ANY direction: the point at parameter `(p − pos)·dir` -/
 theorem Line3_closestPointToPoint_def (l : Line3 α) (p : V3 α) :
     Gen.Line3.closestPointToPoint l p = lineAt l (dot (sub p l.pos) l.dir) := by
@@ -1978,6 +2009,11 @@ example (tmin tmax : ℝ) := LineAlgo_rotatePoint_circle tmin tmax Real.sqrt (fu
 end RealInstances
 
 /-! non-vacuity of the hypotheses of the new theorems -/
+/-- `Line3_mulM44`: an affine matrix (scale 2 in x, translation (5,6,7)) that does not collapse the direction (1,0,0) -/
+example : Affine (⟨2, 0, 0, 0, 0, 1, 0, 0, 0, 0, 1, 0, 5, 6, 7, 1⟩ : M44 ℚ) ∧
+    mulM44 (⟨0, 0, 0⟩ : V3 ℚ) ⟨2, 0, 0, 0, 0, 1, 0, 0, 0, 0, 1, 0, 5, 6, 7, 1⟩ ≠ mulM44 (add ⟨0, 0, 0⟩ ⟨1, 0, 0⟩) ⟨2, 0, 0, 0, 0, 1, 0, 0, 0, 0, 1, 0, 5, 6, 7, 1⟩ := by
+  refine ⟨by simp only [Affine]; norm_num, ?_⟩
+  simp only [mulM44, add, ne_eq, V3.mk.injEq]; norm_num
 /-- `Line3_closestPointToLine_no_div_by_zero`: a result different from `pos` (skew unit lines, foot at parameter 0 ≠ … ) — the
 guard predicate of the quotient branch holds with a non-zero denominator -/
 example : cplDen (⟨⟨0, 0, 0⟩, ⟨1, 0, 0⟩⟩ : Line3 ℚ) ⟨⟨1, 0, 1⟩, ⟨3 / 5, 4 / 5, 0⟩⟩ ≠ 0 ∧
